@@ -339,6 +339,49 @@ func (check typecheck) binaryExpr(n *node) error {
 	return check.op(binaryOpPredicates, a, n, c0, t0)
 }
 
+// typedConstOp checks the arithmetic operation n when its operands are typed constants. It is then a
+// constant expression: it is evaluated exactly, and its value must be representable in the type of the
+// operands, whereas the operation on machine values computed by constOp wraps around silently.
+func (check typecheck) typedConstOp(n *node) error {
+	tok, ok := arithToken[n.action]
+	c0 := constOperand(n.child[0])
+	typ := n.child[0].typ
+	t := typ.TypeOf()
+	if !ok || c0 == nil || typ.untyped || !isNumber(t) {
+		return nil
+	}
+
+	var v constant.Value
+	if n.kind == unaryExpr {
+		var prec uint
+		if isUint(t) {
+			// The bitwise complement of an unsigned constant is limited to the size of its type.
+			prec = uint(bitlen[t.Kind()])
+		}
+		v = constant.UnaryOp(tok, c0, prec)
+	} else {
+		c1 := constOperand(n.child[1])
+		if c1 == nil {
+			return nil
+		}
+		switch {
+		case isShiftAction(n.action):
+			// No integer type is larger than 64 bits: a larger count gives the same outcome.
+			s, ok := constant.Uint64Val(constant.ToInt(c1))
+			if !ok || s > 64 {
+				s = 64
+			}
+			v = constant.Shift(c0, tok, uint(s))
+		case tok == token.QUO && isInt(t):
+			// Integer division.
+			v = constant.BinaryOp(c0, token.QUO_ASSIGN, c1)
+		default:
+			v = constant.BinaryOp(c0, tok, c1)
+		}
+	}
+	return check.representableValue(n, v, t)
+}
+
 // zeroConst returns true if n is a numeric constant, typed or not, of value zero.
 func zeroConst(n *node) bool {
 	c := constOperand(n)
@@ -741,6 +784,13 @@ func (check typecheck) conversion(n *node, typ *itype) error {
 
 	case n.typ.convertibleTo(typ):
 		ok = true
+		if tc := constOperand(n); tc != nil && isNumber(n.typ.TypeOf()) && isNumber(typ.TypeOf()) {
+			// The conversion of a typed numeric constant to a numeric type gives a constant,
+			// which must be representable in this type.
+			if err := check.representableValue(n, tc, typ.TypeOf()); err != nil {
+				return err
+			}
+		}
 	}
 	if !ok {
 		return n.cfgErrorf("cannot convert expression of type %s to type %s", n.typ.id(), typ.id())
@@ -1221,7 +1271,11 @@ func (check typecheck) representable(n *node, t reflect.Type) error {
 		// TODO(nick): This should be an error as untyped strings and bools should be constant.Values.
 		return nil
 	}
+	return check.representableValue(n, c, t)
+}
 
+// representableValue checks that the value c of the constant n is representable in t.
+func (check typecheck) representableValue(n *node, c constant.Value, t reflect.Type) error {
 	if !representableConst(c, t) {
 		typ := n.typ.TypeOf()
 		if isNumber(typ) && isNumber(t) {
